@@ -170,6 +170,57 @@ def compare_cases(ctx, cases_path, obs, profile, stats):
                     ctx.drift.append({"op": op, "model": exp_r, "observed": json.loads(next(iter(vals)))})
 
 
+def validate_groups(ctx, trace, module="ReaderTrace", chunk=12000):
+    """Validate the event file in chunks that start at group boundaries (a Reset, or
+    the first Section of a parsed input).  After a rejected event the group containing
+    it is reported and skipped, the rest is validated."""
+    lines = [l for l in open(trace) if l.strip()]
+    groups = []
+    for l in lines:
+        if '"g":true' in l[:400] or '"g":true' in l[-400:] or not groups:
+            groups.append([])
+        groups[-1].append(l)
+    gi = 0
+    runs = 0
+    while gi < len(groups):
+        part = []
+        gj = gi
+        while gj < len(groups) and (not part or len(part) + len(groups[gj]) <= chunk):
+            part += groups[gj]
+            gj += 1
+        p = os.path.join(ctx.work, "chunk.ndjson")
+        with open(p, "w") as f:
+            f.writelines(part)
+        ok, info = ctx.validate_trace(module, p)
+        runs += 1
+        if ok:
+            ctx.cov["traces_validated_against_impl"] += len(part)
+            gi = gj
+            continue
+        um = info.get("unmatched")
+        if not um:
+            raise ToolError("trace validation failed without an unmatched event: %s" % info.get("error"))
+        idx_s, js = um.split(", ", 1)
+        idx = int(idx_s)
+        ev = json.loads(json.loads(js))
+        # which group does event idx (1-based in this chunk) belong to?
+        n = 0
+        g = gi
+        while n + len(groups[g]) < idx:
+            n += len(groups[g])
+            g += 1
+        head = json.loads(groups[g][0])
+        ctx.cov["traces_validated_against_impl"] += idx - 1
+        sig = "trace:%s:%s" % (head.get("kind"), ev.get("ev"))
+        ctx.violation(sig, "recorded event %d of a %s history is not a step of Reader.tla: %s" %
+                      (idx - n, head.get("kind"), json.dumps(ev)[:1500]),
+                      {"group_head": {k: v for k, v in head.items() if k != "buf"}, "event": ev}, None)
+        # groups gi..g-1 were accepted; skip group g
+        gi = g + 1
+        if runs > 300:
+            raise ToolError("too many rejected events")
+
+
 def run(ctx):
     q = ctx.quick
     profiles = ["dev"] if q else ["dev", "release"]
@@ -181,6 +232,14 @@ def run(ctx):
     for prof, b in bins.items():
         obs = replay_parallel(ctx, b, r.cases_path, "reader-" + prof, n=min(4, ctx.workers))
         compare_cases(ctx, r.cases_path, obs, prof, stats)
+
+    # --- V
+    if q:
+        args = ["--seed", ctx.seed, "--n", 400, "--long", 3, "--short", 10, "--parse", 4]
+    else:
+        args = ["--seed", ctx.seed, "--n", 1000, "--long", 10, "--short", 60, "--parse", 30]
+    tr = ctx.record(bins["dev"], "reader-trace.ndjson", args)
+    validate_groups(ctx, tr)
 
     ctx.assumptions += [
         "offset_from(base) is specified (and exercised) only when the reader lies inside base; the API documents a possible panic otherwise",
